@@ -19,7 +19,7 @@ from . import common
 
 PROPERTY = "C12"
 LEVEL = "fault_enumeration"
-RUNS = {"quick": 2400, "thorough": 60000}
+RUNS = {"quick": 5000, "thorough": 80000}
 BATCH = 40
 RULE = ("seeded scenarios: generated directory + 1 or 2 unservable entries (kind in dangling link, "
         "link loop, FIFO, socket, '..'-name, backslash name, stat ENOENT/EACCES/EIO after listdir, "
@@ -37,7 +37,7 @@ PROBES_REQUIRED = ["fs_vanished", "fs_fault_stat_EACCES", "special_enumerated"]
 
 KINDS = ["dangling", "loop", "fifo", "socket", "dotdot", "backslash", "stat-ENOENT",
          "stat-EACCES", "stat-EIO", "vanish-stat", "vanish-open", "dot-dangling", "dot-socket",
-         "dot-fifo"]
+         "dot-fifo", "vanish-any", "vanish-sidecar"]
 PREFIXES = ["0", "a", "m", "zz", "B"]
 
 
@@ -80,6 +80,21 @@ def _bad_entry(rng, kind, pre, i):
                     if rng.random() < 0.3 else "<title>t</title>soon gone\n"})
         faults.append({"op": "open", "rel": pre + name, "kind": "vanish", "nth": 0,
                        "after_listed": True, "mode": "r"})
+    elif kind == "vanish-any":
+        # deleted right before the n-th file-system call (of any kind) that touches it
+        name = base + rng.choice([".html", ".txt", ".mbox", "", ".html"])
+        ent.append({"p": pre + name, "k": "file",
+                    "d": rng.choice(["<title>t</title>soon gone\n",
+                                     "From a@b.c Sat Sep  8 01:00:00 2001\nSubject: s\n\nx\n", "plain\n"])})
+        faults.append({"op": "any", "rel": pre + name, "kind": "vanish", "nth": rng.randrange(0, 6),
+                       "after_listed": True})
+    elif kind == "vanish-sidecar":
+        # the entry stays, its .abstract sidecar disappears between enumeration and use
+        name = base + ".txt"
+        ent.append({"p": pre + name, "k": "file", "d": "has a sidecar\n"})
+        ent.append({"p": pre + name + ".abstract", "k": "file", "d": "about it\n"})
+        faults.append({"op": "any", "rel": pre + name + ".abstract", "kind": "vanish",
+                       "nth": rng.randrange(0, 3), "after_listed": True})
     elif kind == "dot-dangling":
         name = "." + base
         ent.append({"p": pre + name, "k": "symlink", "to": "nowhere-" + base})
@@ -124,7 +139,9 @@ def gen(seed, index, tier):
 def _strip_bad(entries, sc):
     pre = "/" + (sc["dir"] + "/" if sc["dir"] else "")
     targets = set((pre + b).encode("utf-8", "surrogateescape") for b in sc["bad"])
-    return [e for e in entries if not (e[0] == "link" and e[2] in targets)]
+    # (the abstract lines of a faulty entry's own sidecar go with it)
+    return [e for e in entries if not (e[0] == "link" and e[2] in targets)
+            and not (e[0] == "info" and e[1].strip() == b"about it")]
 
 
 def _no_access_keys(proto_name, entries):
@@ -158,6 +175,7 @@ def execute(sc, tape=None):
             st = run.go()
             got = proto.normalize(sc["proto"], bytes(c.s2c))
             exc = None
+            inconclusive = False
             recs = [r for r in run.exception_records()]
             nonfnf = [r for r in recs if r[1] != "FileNotFound"]
             if nonfnf:
@@ -173,7 +191,10 @@ def execute(sc, tape=None):
                         "detail": "state=%s blocked=%s" % (st, [a.label for a in run.sim.actors if a.state == "blocked"])}
             elif got != ref:
                 ents = proto.parse_listing(sc["proto"], got)
-                if ents is None:
+                if ents is None and proto.is_success(sc["proto"], got) and \
+                        proto.PROTOCOLS[sc["proto"]][1] in ("http", "wap"):
+                    inconclusive = True   # a success in a layout this parser does not know: no verdict
+                elif ents is None:
                     viol = {"oracle": "listing-succeeds",
                             "signature": {"oracle": "listing-succeeds", "kind": culprit,
                                           "reply": "empty" if not got else "error", "exc": exc},
@@ -190,6 +211,8 @@ def execute(sc, tape=None):
                                 "detail": "proto=%s got=%r want=%r" % (sc["proto"], stripped[:12], ref_entries[:12])}
             run.shutdown()
             counters = common.run_counters(run)
+            if inconclusive:
+                counters["unparsed_success_no_verdict"] = 1
         special = any(k in ("dangling", "loop", "fifo", "socket", "dotdot", "backslash",
                             "dot-dangling", "dot-socket", "dot-fifo") for k in sc["kinds"])
         if special and counters.get("fs_listdir", 0):
